@@ -21,6 +21,7 @@ BUILD = os.path.join(ROOT, "build")
 COQ = os.path.join(ROOT, "coq")
 sys.path.insert(0, os.path.join(ROOT, "tools"))
 import monitors  # noqa: E402
+import twins  # noqa: E402
 
 KINDS = ["lru", "mru", "fifo", "rr", "lfu", "lfuda", "tlru", "utlru", "ut_map", "ut_set"]
 ALL = list(range(10))
@@ -394,7 +395,71 @@ def sequential_part(prop, tier, seed, res):
                             res["violations"].append(dict(kind=cfg["kind"], casefile=f, case=cfg["id"], index=v.idx, msg=v.msg))
             except Exception as ex_:  # a monitor crash must never hide a result
                 res["broken"].append(dict(what="monitor", detail=repr(ex_)))
+            if prop in ("C18", "C19", "C20") and not r["crashed"]:
+                try:
+                    twin_part(prop, k, f, r["outfile"], rundir, res, known, seed)
+                except Exception as ex_:
+                    res["broken"].append(dict(what="twin run", detail=repr(ex_)))
     return rundir
+
+
+
+def run_harness_only(k, casefile, outdir):
+    exe = os.path.join(BUILD, "bin", "seq_%d" % k)
+    out = casefile + ".out"
+    with open(out, "w") as fo:
+        try:
+            p = subprocess.run([exe, casefile], stdout=fo, stderr=subprocess.PIPE, text=True, timeout=900)
+            rc, err = p.returncode, p.stderr
+        except subprocess.TimeoutExpired:
+            rc, err = -9, "timeout"
+    return out, rc, err
+
+
+def twin_part(prop, k, casefile, outfile, rundir, res, known, seed):
+    """C18 / C19 / C20: differential runs on the implementation itself (tools/twins.py)"""
+    import random as _random
+    if KINDS[k] == "rr":
+        return
+    parsed = monitors.parse_cases(casefile, outfile)
+    rnd = _random.Random("twin/%s/%d/%s" % (prop, seed, os.path.basename(casefile)))
+    texts, plans = [], {}
+    for (cfg, items, endl) in parsed:
+        if any(it["out"] == "<missing>" for it in items):
+            continue
+        if prop == "C18":
+            if not any(it["kind"] == "op" and it["name"] in twins.RANGE_OPS for it in items):
+                continue
+            t, plan = twins.build_c18(cfg, items)
+            texts.append(t)
+            plans[cfg["id"] + "~18"] = [(cfg, items, plan, t)]
+        elif prop == "C19":
+            r = twins.build_c19(cfg, items, rnd)
+            if r is None:
+                continue
+            texts.append(r[0])
+            plans[cfg["id"] + "~19"] = [(cfg, items, r[1], r[0])]
+        elif prop == "C20":
+            for (t, plan) in twins.build_c20(cfg, items):
+                texts.append(t)
+                plans[t.split()[1]] = [(cfg, items, plan, t)]
+    if not texts:
+        return
+    tf = os.path.join(rundir, os.path.basename(casefile) + ".twin")
+    open(tf, "w").write("".join(texts))
+    tout, rc, err = run_harness_only(k, tf, rundir)
+    if rc != 0:
+        res["crashes"].append(dict(kind=KINDS[k], casefile=tf, san=False, rc=rc, stderr=err[-3000:]))
+    cmpf = {"C18": twins.compare_c18, "C19": twins.compare_c19, "C20": twins.compare_c20}[prop]
+    for (bcfg, bitems, bend) in monitors.parse_cases(tf, tout):
+        for (cfg, items, plan, ttext) in plans.get(bcfg["id"], []):
+            res["extra"]["twin_runs"] = res["extra"].get("twin_runs", 0) + 1
+            for (ai, msg) in cmpf(cfg, items, bitems, plan):
+                kf = known_match(prop, cfg, msg, known)
+                if kf:
+                    res["known"].setdefault(kf["id"], []).append("%s %s @%d: %s" % (prop, cfg["id"], ai, msg))
+                else:
+                    res["violations"].append(dict(kind=cfg["kind"], casefile=casefile, case=cfg["id"], index=ai, msg=msg, twin=ttext, noshrink=True))
 
 
 def case_features(cfg, items):
@@ -556,10 +621,10 @@ def decide(prop, res, rundir):
             except Exception:
                 return False
             return False
-        small = shrink_case(k, text, still) if text else None
+        small = shrink_case(k, text, still) if (text and not v.get("noshrink")) else None
         msgs = [x["msg"] for x in res["violations"][:5]]
         rp = write_replay(prop, v["kind"], dict(property=prop, kind=v["kind"], what="the implementation's own trace violates the property",
-                                               messages=msgs, case=(small or text), seed=res["seed"],
+                                               messages=msgs, case=(small or text), twin_case=v.get("twin"), seed=res["seed"],
                                                how_to_replay="./check %s --replay <this file>" % prop))
         print("VIOLATION property=%s replay=%s" % (prop, os.path.relpath(rp, ROOT)))
         nviol += 1
